@@ -155,10 +155,10 @@ type limit struct {
 // https://tools.ietf.org/html/rfc6352#section-8.7
 type addressbookMultiget struct {
 	XMLName  xml.Name        `xml:"urn:ietf:params:xml:ns:carddav addressbook-multiget"`
-	Hrefs    []internal.Href `xml:"DAV: href"`
 	Prop     *internal.Prop  `xml:"DAV: prop,omitempty"`
 	AllProp  *struct{}       `xml:"DAV: allprop,omitempty"`
 	PropName *struct{}       `xml:"DAV: propname,omitempty"`
+	Hrefs    []internal.Href `xml:"DAV: href"`
 }
 
 func newProp(name string, noValue bool) *internal.RawXMLValue {
